@@ -956,6 +956,7 @@ def data_unit_names():
 
 def check_c18(rep, tier, seed):
     t0 = time.time()
+    cpu0 = _children_cpu()
     frontend.ensure_repo_on_path()
     real()
     max_size, wlen = (5, 4) if tier == "quick" else (6, 5)
@@ -975,7 +976,8 @@ def check_c18(rep, tier, seed):
             n_flat += k == "flat"
     clear_caches()
     tasks = [(c, ("a", "b", "c"), wlen, True) for c in _chunks(strings, 40)]
-    with _pool() as pool:
+    pool = _pool()
+    try:
         res_enum = pool.map(_c18_task, tasks, chunksize=1)
         # live patterns over the data-unit names
         level, literal, _prio = live_patterns()
@@ -990,10 +992,10 @@ def check_c18(rep, tier, seed):
                 names = names + sorted(extra)
         live_len = wlen
         # one task per (pattern, first symbol) so the big level pattern spreads over the pool
-        ltasks = []
-        for s in live:
-            ltasks.append(((s,), tuple(names), live_len, True))
         res_live = pool.map(_c18_task_split, [(s, tuple(names), live_len, i) for s in live for i in range(len(names))], chunksize=1)
+    finally:
+        pool.close()
+        pool.join()
     tot_e = _merge(res_enum)
     tot_l = _merge(res_live)
     tot_l["npatterns"] = len(live)
@@ -1022,6 +1024,7 @@ def check_c18(rep, tier, seed):
         "enumerated": {k: len(set(v)) for k, v in tot_e["failing_patterns"].items()},
         "live": {k: sorted(set(v)) for k, v in tot_l["failing_patterns"].items()}}
     rep.extra_coverage["C18_wall_s"] = round(time.time() - t0, 1)
+    rep.extra_coverage["C18_worker_cpu_s"] = round(_children_cpu() - cpu0, 1)
     _report(rep, "C18-enumerated", tot_e, C18_KNOWN)
     _report(rep, "C18-live", tot_l, C18_KNOWN)
 
@@ -1270,29 +1273,84 @@ D7_WITNESSES = [
 ]
 
 
+def _children_cpu():
+    import resource
+
+    r = resource.getrusage(resource.RUSAGE_CHILDREN)
+    return r.ru_utime + r.ru_stime
+
+
+def _case_dict(c):
+    return dict(required=list(c[0]), patterns=list(c[1]), symbol_priority=list(c[2]), depth_limit=c[3])
+
+
+def _feasible(required, patterns):
+    """Own reference only: does ANY completion exist (no insertion limit)?  Used to bias the samples towards non-trivial cases."""
+    trees = [own_parse(p) for p in patterns]
+    names = set()
+    for t in trees:
+        names |= tree_names(t)
+    return ref_min_len(required, [SemCorrect(t) for t in trees], sorted(names | set(required)) + [WILDCARD], None) is not None
+
+
 def check_c19(rep, tier, seed):
     t0 = time.time()
+    cpu0 = _children_cpu()
     frontend.ensure_repo_on_path()
     real()
     rng = random.Random(seed * 7919 + 19)
     if tier == "quick":
-        req_len, single_size, pair_exh_size, pair_sample_size, n_pair_samples, max_pics = 3, 4, 2, 4, 12000, 3
+        exh_blocks, samp_size, samp_req, n_single_samples, pair_exh_size, pair_exh_req, n_pair_samples, max_pics = [(3, 3)], 4, 3, 3000, 1, 3, 5000, 3
     else:
-        req_len, single_size, pair_exh_size, pair_sample_size, n_pair_samples, max_pics = 4, 5, 2, 5, 60000, 5
-    reqs = [w for n in range(req_len + 1) for w in itertools.product("abc", repeat=n)]
+        exh_blocks, samp_size, samp_req, n_single_samples, pair_exh_size, pair_exh_req, n_pair_samples, max_pics = [(4, 3), (3, 4)], 5, 4, 60000, 2, 3, 60000, 5
     limits = (1, 2, 3)
+    live_limits = (1, 3) if tier == "quick" else (1, 2, 3)
     prios = ((), ("c", "b"))
+
+    def req_lists(n):
+        return [w for k in range(n + 1) for w in itertools.product("abc", repeat=k)]
+
     pats = {}
-    for n in range(1, max(single_size, pair_sample_size) + 1):
+    for n in range(1, samp_size + 1):
         pats[n] = [render_explicit(t) for t in enum_trees(n, ENUM_LEAVES) if eos_in_scope(t)]
-    singles = [p for n in range(1, single_size + 1) for p in pats[n]]
-    small = [p for n in range(1, pair_exh_size + 1) for p in pats[n]]
-    pool_big = [p for n in range(1, pair_sample_size + 1) for p in pats[n]]
-    cases_single = [(r, (p,), pr, dl) for p in singles for r in reqs for pr in prios for dl in limits]
-    cases_pair = [(r, (p, q), pr, dl) for p in small for q in small for r in reqs for pr in prios for dl in limits]
-    cases_samp = []
-    for _ in range(n_pair_samples):
-        cases_samp.append((rng.choice(reqs), (rng.choice(pool_big), rng.choice(pool_big)), rng.choice(prios), rng.choice(limits)))
+
+    def upto(n):
+        return [p for k in range(1, n + 1) for p in pats[k]]
+
+    cases_single, seen = [], set()
+    for (size, rl) in exh_blocks:
+        for p in upto(size):
+            for r in req_lists(rl):
+                if (p, r) in seen:
+                    continue
+                seen.add((p, r))
+                for pr in prios:
+                    for dl in limits:
+                        cases_single.append((r, (p,), pr, dl))
+    small = upto(pair_exh_size)
+    cases_pair = [(r, (p, q), pr, dl) for p in small for q in small for r in req_lists(pair_exh_req) for pr in prios for dl in limits]
+
+    def sample(n, k, min_size):
+        out, infeasible = [], 0
+        pool_p = upto(samp_size)
+        big = [p for m in range(min_size, samp_size + 1) for p in pats[m]]
+        reqs = req_lists(samp_req)
+        while len(out) < n:
+            ps = tuple([rng.choice(big)] + [rng.choice(pool_p) for _ in range(k - 1)])
+            if k > 1 and rng.random() < 0.5:
+                ps = ps[::-1]
+            r = rng.choice(reqs)
+            if not _feasible(r, ps):
+                if rng.random() >= 0.25:
+                    continue
+                infeasible += 1
+            out.append((r, ps, rng.choice(prios), rng.choice(limits)))
+        return out, infeasible
+
+    max_exh = max(s for s, _ in exh_blocks)
+    cases_ssamp, ssamp_inf = sample(n_single_samples, 1, min(samp_size, max_exh + 1))
+    cases_psamp, psamp_inf = sample(n_pair_samples, 2, 1)
+    clear_caches()
     # live combinations, as encoder/sequence.py builds them
     level, literal, prio = live_patterns()
     prio = tuple(prio if prio is not None else ["padding_data", "sequence_header"])
@@ -1311,54 +1369,72 @@ def check_c19(rep, tier, seed):
     for lv in level_distinct:
         for extra in [()] + [(p,) for p in tc]:
             for pics in pic_lists:
-                for dl in limits:
+                for dl in live_limits:
                     cases_live.append((pics, tuple(generic) + (lv,) + extra, prio, dl))
     cases_wit = list(D7_WITNESSES)
 
-    def run(pool, cases, chunk):
-        return _merge_c19(pool.map(_c19_task, _chunks(cases, chunk), chunksize=1))
+    group_wall = {}
 
-    with _pool() as pool:
+    def run(pool, cases, chunk):
+        t1 = time.time()
+        r = _merge_c19(pool.map(_c19_task, _chunks(cases, chunk), chunksize=1))
+        group_wall[len(group_wall)] = round(time.time() - t1, 1)
+        return r
+
+    pool = _pool()
+    try:
         tot_w = run(pool, cases_wit, 1)
-        tot_live = run(pool, cases_live, 4)
-        tot_s = run(pool, cases_single, 400)
-        tot_p = run(pool, cases_pair, 400)
-        tot_r = run(pool, cases_samp, 200)
-    dom_common = "required lists: all %d lists of length <= %d over {a, b, c}; depth_limit in {1,2,3}; symbol_priority in {[], [c, b]}" % (len(reqs), req_len)
-    rep.add_bounded("C19-single-pattern",
-                    "EXHAUSTIVE: every in-scope pattern tree with <= %d nodes over {a, b, '.', '$'} [%d patterns, fully parenthesised] x %s"
-                    % (single_size, len(singles), dom_common),
-                    evaluations=tot_s["evals"], exhaustive=True, distinct=tot_s["cases"],
-                    samples=[dict(required=list(c[0]), patterns=list(c[1]), symbol_priority=list(c[2]), depth_limit=c[3]) for c in cases_single[:: max(1, len(cases_single) // 3)][:3]],
-                    note="outcomes %s; failing cases by class: %s" % (tot_s["stats"], tot_s["by_key"] or "none"))
-    rep.add_bounded("C19-pattern-pairs-small",
-                    "EXHAUSTIVE: every ordered pair of in-scope pattern trees with <= %d nodes [%d patterns, %d pairs] x %s"
-                    % (pair_exh_size, len(small), len(small) ** 2, dom_common),
-                    evaluations=tot_p["evals"], exhaustive=True, distinct=tot_p["cases"],
-                    note="outcomes %s; failing cases by class: %s" % (tot_p["stats"], tot_p["by_key"] or "none"))
+        tot_live = run(pool, cases_live, 3)
+        tot_s = run(pool, cases_single, 150)
+        tot_ss = run(pool, cases_ssamp, 100)
+        tot_p = run(pool, cases_pair, 150)
+        tot_ps = run(pool, cases_psamp, 100)
+    finally:
+        pool.close()
+        pool.join()
+    combos = "depth_limit in {1,2,3} x symbol_priority in {[], [c, b]}"
+
+    def note(tot, extra=""):
+        return "outcomes %s; failing cases by class: %s%s" % ({k: v for k, v in tot["stats"].items() if k != "shorter_only_beyond_limit"}, tot["by_key"] or "none", extra)
+
+    rep.add_bounded("C19-single-pattern-exhaustive",
+                    "EXHAUSTIVE: " + "; plus ".join("every in-scope pattern tree with <= %d nodes over {a, b, '.', '$'} [%d patterns, fully parenthesised] x every required list of "
+                                                   "length <= %d over {a, b, c} [%d lists]" % (s, len(upto(s)), rl, len(req_lists(rl))) for (s, rl) in exh_blocks) + "; x " + combos,
+                    evaluations=tot_s["evals"], exhaustive=True, distinct=tot_s["stats"].get("ok", 0),
+                    samples=[_case_dict(c) for c in cases_single[:: max(1, len(cases_single) // 3)][:3]], note=note(tot_s))
+    rep.add_bounded("C19-single-pattern-sampled",
+                    "SAMPLED (not exhaustive; seed %d): %d cases, one in-scope pattern tree of %d..%d nodes, a required list of length <= %d over {a,b,c}, %s; candidates for which the "
+                    "own reference finds no completion at all are kept only with probability 1/4 (%d kept)" % (seed, len(cases_ssamp), min(samp_size, max_exh + 1), samp_size, samp_req, combos, ssamp_inf),
+                    evaluations=tot_ss["evals"], exhaustive=False, distinct=tot_ss["stats"].get("ok", 0),
+                    samples=[_case_dict(c) for c in cases_ssamp[:2]], note=note(tot_ss))
+    rep.add_bounded("C19-pattern-pairs-exhaustive",
+                    "EXHAUSTIVE: every ordered pair of in-scope pattern trees with <= %d nodes [%d patterns, %d pairs] x every required list of length <= %d over {a,b,c} x %s"
+                    % (pair_exh_size, len(small), len(small) ** 2, pair_exh_req, combos),
+                    evaluations=tot_p["evals"], exhaustive=True, distinct=tot_p["stats"].get("ok", 0), note=note(tot_p))
     rep.add_bounded("C19-pattern-pairs-sampled",
-                    "SAMPLED (not exhaustive; seed %d): %d random cases, each an ordered pair of in-scope pattern trees with <= %d nodes [%d patterns], a required "
-                    "list of length <= %d over {a,b,c}, depth_limit in {1,2,3}, symbol_priority in {[], [c, b]}" % (seed, len(cases_samp), pair_sample_size, len(pool_big), req_len),
-                    evaluations=tot_r["evals"], exhaustive=False, distinct=tot_r["cases"],
-                    note="outcomes %s; failing cases by class: %s" % (tot_r["stats"], tot_r["by_key"] or "none"))
+                    "SAMPLED (not exhaustive; seed %d): %d cases, an ordered pair of in-scope pattern trees with <= %d nodes [%d patterns], a required list of length <= %d over {a,b,c}, %s; "
+                    "candidates without any completion kept only with probability 1/4 (%d kept)" % (seed, len(cases_psamp), samp_size, len(upto(samp_size)), samp_req, combos, psamp_inf),
+                    evaluations=tot_ps["evals"], exhaustive=False, distinct=tot_ps["stats"].get("ok", 0),
+                    samples=[_case_dict(c) for c in cases_psamp[:2]], note=note(tot_ps))
     rep.add_bounded("C19-live-combinations",
-                    "every distinct live level pattern [%d] combined, as encoder.sequence.make_sequence does, with %s and with no / each test-case pattern %s; "
-                    "required lists: [] and k copies (k = 1..%d) of each of %s; symbol_priority %s (read from the encoder's call); depth_limit in {1,2,3} (3 is the default the encoder uses)"
-                    % (len(level_distinct), generic, tc, max_pics, pic_types, list(prio)),
-                    evaluations=tot_live["evals"], exhaustive=True, distinct=tot_live["cases"],
-                    samples=[dict(required=list(c[0]), patterns=list(c[1]), symbol_priority=list(c[2]), depth_limit=c[3]) for c in cases_live[:: max(1, len(cases_live) // 3)][:3]],
-                    note="outcomes %s; failing cases by class: %s" % (tot_live["stats"], tot_live["by_key"] or "none"))
+                    "every distinct live level pattern [%d of %d table rows] combined, as encoder.sequence.make_sequence does, with %s and with no / each test-case pattern %s; "
+                    "required lists: [] and k copies (k = 1..%d) of each of %s; symbol_priority %s (read from the encoder's call); depth_limit in %s (3 is what the encoder uses)"
+                    % (len(level_distinct), len(level), generic, tc, max_pics, pic_types, list(prio), list(live_limits)),
+                    evaluations=tot_live["evals"], exhaustive=True, distinct=tot_live["stats"].get("ok", 0),
+                    samples=[_case_dict(c) for c in cases_live[:: max(1, len(cases_live) // 3)][:3]], note=note(tot_live))
     rep.add_bounded("C19-design-witnesses", "the two D7 witnesses of DESIGN.md section 7, written with explicit parentheses",
                     evaluations=tot_w["evals"], exhaustive=True, distinct=tot_w["cases"],
-                    samples=[dict(required=list(c[0]), patterns=list(c[1]), depth_limit=c[3]) for c in cases_wit],
-                    note="failing cases by class: %s" % (tot_w["by_key"] or "none"))
-    rep.extra_coverage["C19_failing_cases_by_class"] = {"single": tot_s["by_key"], "pairs_small": tot_p["by_key"], "pairs_sampled": tot_r["by_key"],
-                                                        "live": tot_live["by_key"], "witnesses": tot_w["by_key"]}
+                    samples=[_case_dict(c) for c in cases_wit], note=note(tot_w))
+    parts = (("witnesses", tot_w), ("live", tot_live), ("single", tot_s), ("single-sampled", tot_ss), ("pairs", tot_p), ("pairs-sampled", tot_ps))
+    rep.extra_coverage["C19_failing_cases_by_class"] = {n: t["by_key"] for n, t in parts}
+    rep.extra_coverage["C19_distinct_nontrivial_means"] = "calls in which the real function returned a sequence (the rest raised ImpossibleSequenceError)"
     rep.extra_coverage["C19_results_longer_than_a_sequence_needing_more_consecutive_insertions_than_depth_limit"] = sum(
-        t["stats"].get("shorter_only_beyond_limit", 0) for t in (tot_s, tot_p, tot_r, tot_live, tot_w))
+        t["stats"].get("shorter_only_beyond_limit", 0) for _, t in parts)
     rep.extra_coverage["C19_wall_s"] = round(time.time() - t0, 1)
-    for name, tot in (("C19-witness", tot_w), ("C19-live", tot_live), ("C19-single", tot_s), ("C19-pairs", tot_p), ("C19-sampled", tot_r)):
-        _report(rep, name, tot, C19_KNOWN, max_unexplained=3)
+    rep.extra_coverage["C19_wall_s_by_part"] = dict(zip([n for n, _ in parts], [group_wall[i] for i in range(len(parts))]))
+    rep.extra_coverage["C19_worker_cpu_s"] = round(_children_cpu() - cpu0, 1)
+    for n, t in parts:
+        _report(rep, "C19-" + n, t, C19_KNOWN, max_unexplained=3)
 
 
 def _merge_c19(results):
